@@ -123,10 +123,6 @@ func (w *watches) updatePath(path string, f func(*watch) (*watch, error)) error 
 	if upd != nil {
 		w.wd[upd.wd] = upd
 		w.path[upd.path] = upd.wd
-
-		if upd.wd != wd {
-			delete(w.wd, wd)
-		}
 	}
 
 	return nil
@@ -264,6 +260,15 @@ func (w *inotify) register(path string, flags uint32, recurse bool) error {
 		wd, err := unix.InotifyAddWatch(w.fd, path, flags)
 		if wd == -1 {
 			return nil, err
+		}
+
+		// The path was already watched but now refers to another file (it was
+		// replaced, or it's a symlink that now points elsewhere): stop watching
+		// the old file, which may still exist under another name.
+		if existing != nil && existing.wd != uint32(wd) {
+			w.watches.remove(existing)
+			_, _ = unix.InotifyRmWatch(w.fd, existing.wd) // May already be gone.
+			existing = nil
 		}
 
 		if e, ok := w.watches.wd[uint32(wd)]; ok {
